@@ -1099,6 +1099,130 @@ Proof.
     rewrite (firstn_S_last sp' e' RB Hne). reflexivity.
 Qed.
 
+Lemma index_from_min c : forall s i k, index_from [c] s i = Some k ->
+  forall j, (j < k - i)%nat -> nth_error s j <> Some c.
+Proof.
+  induction s as [|x s IH]; intros i k H j Hj; simpl in H; [discriminate|].
+  destruct (x =? c) eqn:E; simpl in H.
+  - injection H as <-. lia.
+  - destruct j as [|j']; simpl.
+    + intro Hx. injection Hx as ->. rewrite N.eqb_refl in E. discriminate.
+    + apply (IH (S i) k H). pose proof (index_from_hit c s (S i) k H) as [Hle _]. lia.
+Qed.
+Lemma index_from_none c : forall s i, index_from [c] s i = None -> forall j, nth_error s j <> Some c.
+Proof.
+  induction s as [|x s IH]; intros i H j; simpl in H.
+  - destruct j; discriminate.
+  - destruct (x =? c) eqn:E; simpl in H; [discriminate|].
+    destruct j as [|j']; simpl.
+    + intro Hx. injection Hx as ->. rewrite N.eqb_refl in E. discriminate.
+    + apply (IH (S i) H).
+Qed.
+
+Definition escaped_at (s : bytes) (j : nat) : Prop := exists j', j = S j' /\ nth_error s j' = Some BSL.
+
+Lemma find_unescaped_min fuel : forall c s off r,
+  c <> BSL -> (off <= length s)%nat ->
+  (off = 0%nat \/ exists y, nth_error s (off - 1) = Some y /\ y <> BSL) ->
+  find_unescaped fuel c s off = Ok r ->
+  forall j, (off <= j)%nat -> (match r with Some k => (j < k)%nat | None => True end) ->
+            nth_error s j = Some c -> escaped_at s j.
+Proof.
+  induction fuel as [|fuel IH]; intros c s off r Hc Hoff Hinv H j Hj Hlt Hn; [discriminate|].
+  simpl in H. rewrite (slice_from_ok s off Hoff) in H. cbn [rbind] in H.
+  destruct (index_of [c] (skipn off s)) as [i|] eqn:Ei.
+  2:{ exfalso. apply (index_from_none c _ 0%nat Ei (j - off)%nat).
+      rewrite nth_error_skipn. replace (off + (j - off))%nat with j by lia. exact Hn. }
+  pose proof (index_of_hit _ _ _ Ei) as Hhit. rewrite nth_error_skipn in Hhit.
+  pose proof (index_from_min c _ 0%nat i Ei) as Hmin.
+  assert (Hno : forall j0, (off <= j0 < off + i)%nat -> nth_error s j0 <> Some c).
+  { intros j0 Hj0. specialize (Hmin (j0 - off)%nat). rewrite nth_error_skipn in Hmin.
+    replace (off + (j0 - off))%nat with j0 in Hmin by lia. apply Hmin. lia. }
+  pose proof (index_of_bound _ _ _ Ei) as Hb. rewrite skipn_length in Hb. simpl in Hb.
+  destruct i as [|i'].
+  - injection H as <-. lia.
+  - destruct (idx_ok (skipn off s) i') as [v Ev]; [rewrite skipn_length; lia|].
+    rewrite Ev in H. cbn [rbind] in H.
+    apply idx_Ok_nth in Ev. rewrite nth_error_skipn in Ev.
+    destruct (negb (v =? BSL)) eqn:Eb.
+    + injection H as <-. exfalso. apply (Hno j); [lia|exact Hn].
+    + apply negb_false_iff, N.eqb_eq in Eb. subst v.
+      destruct (Nat.lt_ge_cases j (off + S i')) as [Hlt1|Hge1]; [exfalso; apply (Hno j); [lia|exact Hn]|].
+      destruct (Nat.eq_dec j (off + S i')) as [->|Hne].
+      * exists (off + i')%nat. split; [lia|exact Ev].
+      * apply (IH c s (off + S i' + 1)%nat r Hc); auto; try lia.
+        right. exists c. split; [|exact Hc].
+        replace (off + S i' + 1 - 1)%nat with (off + S i')%nat by lia. exact Hhit.
+Qed.
+
+Lemma nth_error_firstn_lt {A} (l : list A) : forall n j, (j < n)%nat -> nth_error (firstn n l) j = nth_error l j.
+Proof.
+  induction l as [|a l IH]; intros [|n] [|j] H; try lia; try reflexivity.
+  simpl. apply IH. lia.
+Qed.
+Lemma nth_error_firstn_some {A} (l : list A) n j x : nth_error (firstn n l) j = Some x -> (j < n)%nat.
+Proof.
+  intro H. assert (Hl : (j < length (firstn n l))%nat) by (apply nth_error_Some; congruence).
+  rewrite firstn_length in Hl. lia.
+Qed.
+
+(* the placeholder found by one round is the LEFTMOST complete unescaped one: every opening brace
+   of the raw prefix is escaped, and every closing brace inside the placeholder before its last
+   character is escaped *)
+Definition first_close (p : bytes) : Prop :=
+  forall j, (S j < length p)%nat -> nth_error p j = Some RB -> escaped_at p j.
+
+Lemma scan_step_decomp_min s pre key rest :
+  scan_step s = Ok (Some (pre, key, rest)) ->
+  exists a m, s = a ++ (LB :: m ++ [RB]) ++ rest /\
+              pre = trim_prefix_bsl (unescape_braces a) /\ key = unescape_braces (LB :: m ++ [RB]) /\
+              all_open_escaped a /\ first_close (LB :: m ++ [RB]).
+Proof.
+  unfold scan_step.
+  destruct (find_unescaped_ok (S (length s)) LB s 0%nat) as [st [Est Hst]]; [discriminate|lia|lia|].
+  pose proof (find_unescaped_min (S (length s)) LB s 0%nat st ltac:(discriminate) ltac:(lia) (or_introl eq_refl) Est) as HminL.
+  rewrite Est. cbn [rbind].
+  destruct st as [i0|]; [|discriminate].
+  destruct (Hst i0 eq_refl) as [[_ Hi0] [Hn0 _]].
+  ok_from s i0. set (sp := skipn i0 s).
+  assert (Hsp : length sp = (length s - i0)%nat) by apply skipn_length.
+  destruct (find_unescaped_ok (S (length sp)) RB sp 0%nat) as [en [Een Hen]]; [discriminate|lia|lia|].
+  pose proof (find_unescaped_min (S (length sp)) RB sp 0%nat en ltac:(discriminate) ltac:(lia) (or_introl eq_refl) Een) as HminR.
+  rewrite Een. cbn [rbind].
+  destruct en as [e|]; [|discriminate].
+  destruct (Hen e eq_refl) as [[_ He] [Hne _]].
+  assert (H0 : nth_error sp 0 = Some LB) by (unfold sp; rewrite nth_error_skipn, Nat.add_0_r; exact Hn0).
+  assert (He0 : e <> 0%nat) by (intros ->; rewrite H0 in Hne; discriminate).
+  ok_slice s i0 (i0 + e + 1)%nat. ok_slice s 0%nat i0. ok_from s (i0 + e + 1)%nat.
+  intro H. injection H as <- <- <-.
+  replace (i0 + e + 1 - i0)%nat with (S e) by lia. fold sp.
+  rewrite Nat.sub_0_r. change (skipn 0 s) with s.
+  assert (Hopen : all_open_escaped (firstn i0 s)).
+  { intros k Hk. pose proof (nth_error_firstn_some _ _ _ _ Hk) as Hlt.
+    rewrite (nth_error_firstn_lt s i0 k Hlt) in Hk.
+    destruct (HminL k ltac:(lia) Hlt Hk) as [j' [-> Hj']]. exists j'. split; [reflexivity|].
+    rewrite nth_error_firstn_lt; [exact Hj'|lia]. }
+  assert (Hclose : first_close (firstn (S e) sp)).
+  { intros j Hj Hn. rewrite firstn_length in Hj.
+    assert (Hje : (j < e)%nat) by lia.
+    rewrite (nth_error_firstn_lt sp (S e) j ltac:(lia)) in Hn.
+    destruct (HminR j ltac:(lia) Hje Hn) as [j' [-> Hj']]. exists j'. split; [reflexivity|].
+    rewrite nth_error_firstn_lt; [exact Hj'|lia]. }
+  destruct sp as [|c sp'] eqn:Esp; [discriminate|]. simpl in H0. injection H0 as ->.
+  destruct e as [|e']; [congruence|]. simpl in Hne.
+  assert (Eph : firstn (S (S e')) (LB :: sp') = LB :: firstn e' sp' ++ [RB]).
+  { change (firstn (S (S e')) (LB :: sp')) with (LB :: firstn (S e') sp').
+    rewrite (firstn_S_last sp' e' RB Hne). reflexivity. }
+  exists (firstn i0 s), (firstn e' sp'). split; [|split; [reflexivity|split; [|split]]].
+  - rewrite <- Eph.
+    replace (skipn (i0 + S e' + 1) s) with (skipn (S (S e')) (LB :: sp')).
+    + rewrite firstn_skipn. rewrite <- Esp. unfold sp. symmetry. apply firstn_skipn.
+    + rewrite <- Esp. unfold sp. rewrite skipn_add. f_equal. lia.
+  - rewrite Eph. reflexivity.
+  - exact Hopen.
+  - rewrite <- Eph. exact Hclose.
+Qed.
+
 (* the pieces of a format: (raw literal, raw placeholder) pairs followed by a raw tail *)
 Definition pieces_cat (ps : list (bytes * bytes)) : bytes := concat (map (fun p => fst p ++ snd p) ps).
 Definition pieces_template (ps : list (bytes * bytes)) (tail : bytes) : list seg :=
@@ -1108,9 +1232,13 @@ Definition pieces_out (gs : bytes -> bytes) (ps : list (bytes * bytes)) (tail : 
   concat (map (fun p => trim_prefix_bsl (unescape_braces (fst p)) ++ gs (unescape_braces (snd p))) ps)
   ++ unescape_braces tail.
 Definition braced (p : bytes) : Prop := exists m, p = LB :: m ++ [RB].
+(* a piece as the scan cuts it: the literal has no unescaped opening brace, the placeholder is
+   "{" ... "}" and its last character is its first unescaped closing brace *)
+Definition leftmost_piece (p : bytes * bytes) : Prop :=
+  all_open_escaped (fst p) /\ braced (snd p) /\ first_close (snd p).
 
 Lemma template_loop_decomp fuel : forall s, (length s < fuel)%nat ->
-  exists ps tail, s = pieces_cat ps ++ tail /\ Forall (fun p => braced (snd p)) ps /\
+  exists ps tail, s = pieces_cat ps ++ tail /\ Forall leftmost_piece ps /\
                   scan_step tail = Ok None /\
                   template_loop fuel s = Ok (pieces_template ps tail).
 Proof.
@@ -1118,12 +1246,12 @@ Proof.
   destruct (scan_step_ok s) as [st [Est Hst]]. rewrite Est. cbn [rbind].
   destruct st as [[[pre key] rest]|].
   - destruct (Hst pre key rest eq_refl) as [Hlen _].
-    destruct (scan_step_decomp s pre key rest Est) as [a [m [Es [Epre Ekey]]]].
+    destruct (scan_step_decomp_min s pre key rest Est) as [a [m [Es [Epre [Ekey [Hop Hcl]]]]]].
     destruct (IH rest) as [ps [tail [Er [Hb [Htail Et]]]]]; [lia|]. rewrite Et. cbn [rbind].
     exists ((a, LB :: m ++ [RB]) :: ps), tail. repeat split.
     + unfold pieces_cat. cbn [map concat fst snd]. fold (pieces_cat ps).
       rewrite Es at 1. rewrite Er at 1. repeat (rewrite <- ?app_assoc; cbn [app]). reflexivity.
-    + constructor; [exists m; reflexivity|exact Hb].
+    + constructor; [split; [exact Hop|split; [exists m; reflexivity|exact Hcl]]|exact Hb].
     + exact Htail.
     + unfold pieces_template. cbn [flat_map fst snd app]. rewrite <- Epre, <- Ekey. reflexivity.
   - exists [], s. repeat split; auto.
@@ -1148,7 +1276,7 @@ Qed.
    position 0). *)
 Lemma replace_scan_decomposition gs fmt :
   exists ps tail,
-    fmt = pieces_cat ps ++ tail /\ Forall (fun p => braced (snd p)) ps /\
+    fmt = pieces_cat ps ++ tail /\ Forall leftmost_piece ps /\
     (has_brace fmt = true -> scan_step tail = Ok None) /\
     template fmt = Ok (pieces_template ps tail) /\
     expand gs fmt = Ok (pieces_out gs ps tail).
